@@ -38,23 +38,20 @@ SPEC = dict(
         "one element per read: the scripted server waits for the client to become quiescent after every element",
     ],
     assumptions=[
-        "server side (named hypothesis noEarlyBypass, needed because of the OPEN finding below): before the link is encrypted the server sends "
-        "neither a version/disco IQ in a non-jabber:client namespace nor <r/>; without it the theorem is false (C04_defect_foreign_namespace_iq_answered_in_clear)",
-        "scope (application side, hypothesis appWaits): the application itself does not send requests before the session exists "
+        "scope (the only hypothesis of the theorem, application side, appWaits): the application itself does not send requests before the session exists "
         "and calls connectToServer only while disconnected (calling it on a live TLS link makes QSslSocket::connectToHost reset the socket "
         "to plaintext mode - observed, outside the property, which quantifies over servers)",
         "QSslSocket::supportsSsl() is true in this environment: the localTls=false branch of the model is proved but not exercised on the implementation",
         "mechanism selection is abstracted to {PLAIN, SCRAM-SHA-1, HT-SHA-256-NONE, unsupported} (full ranking: C05); SM counters/acks: C09; framing: C03",
     ],
-    level_text="PARTIAL (open finding): theorem over all server scripts of any length that satisfy noEarlyBypass (no foreign-namespace version/disco "
-               "IQ and no <r/> before encryption): with TLS required nothing but stream open/starttls/stream close is ever "
-               "written to an unencrypted wire, hence no password, digest or token. C04_defect_foreign_namespace_iq_answered_in_clear proves the "
-               "hypothesis necessary: <iq xmlns='urn:foo' type='get'><query xmlns='jabber:iq:version'/></iq> right after the header is answered "
-               "in clear (the fa0779c guard tests the jabber:client namespace only); reproduced on the real client, fix "
-               "fixes/C04-pre-tls-guard-all-namespaces.diff. Unconditional for every configuration and every state waiting for TLS: features "
-               "without starttls, <failure/> to starttls, and <proceed/> + failed handshake each end in stream close + disconnected "
-               "(tls_unavailable_disconnects, starttls_failure_disconnects, failed_handshake_disconnects); 'version-less header => give up'; "
-               "'jabber:client IQ request before TLS => rejected'. The scripts that used to leak (fixed by e0bbad9 and fa0779c) are replayed first.",
+    level_text="Theorem over ALL server scripts of any length (no hypothesis about the server; alphabet incl. stanza-shaped elements in foreign/"
+               "empty/jabber:server namespaces, <r/>, <a/>, white space, half elements, error+close in one read): with TLS required nothing but "
+               "stream open/starttls/stream close is ever written to an unencrypted wire, hence no password, digest or token. For every "
+               "configuration and every reachable state waiting before TLS: any element but stream features / stream error is rejected "
+               "(pre_tls_element_is_rejected); features without starttls, <failure/> to starttls, and <proceed/> + failed handshake each end in "
+               "stream close + disconnected (tls_unavailable_disconnects, starttls_failure_disconnects, failed_handshake_disconnects); "
+               "'version-less header => give up'; 'jabber:client IQ request before TLS => rejected'. The scripts that used to leak (fixed by "
+               "e0bbad9, fa0779c and 0b10c27: foreign-namespace version IQ, <r/> after a redirect with stream management left on) are replayed first.",
     level_note="Also proved: an application that sends only while isConnected() (and connects only while disconnected) satisfies the scope "
                "hypothesis automatically - with TLS required isConnected() implies an encrypted link; and a request sent on a connected "
                "unencrypted link does go out in clear (the scope hypothesis cannot be dropped). Proved about the hand-written model; the model-to-code tie is differential (exhaustive to depth 3/4 over a reduced "
